@@ -13,7 +13,7 @@ fn close(a: f64, b: f64, rel: f64, abs: f64) -> bool {
 
 pub fn check(sc: &Scenario, ex: &mut Exec) -> (Verdict, Option<String>) {
     let q = match &sc.query {
-        Some(q) if q.plain.is_none() => q.clone(),
+        Some(q) if q.plain.is_none() && q.raw_sql.is_none() => q.clone(),
         _ => return (Verdict::Skip("no_query_spec".into()), None),
     };
     if q.keys.iter().any(|k| k.public_set.is_none()) {
